@@ -142,6 +142,9 @@ def torch_globals():
     return {'default_dtype': str(torch.get_default_dtype()), 'grad_enabled': torch.is_grad_enabled(),
             'num_threads': torch.get_num_threads(),
             'deterministic': torch.are_deterministic_algorithms_enabled(),
+            # flush-to-zero / denormals-are-zero are CPU flags of the thread: probed with NumPy so that no
+            # torch operator is issued from inside a monitored call
+            'denormals_kept': bool(np.float32(1e-40) * np.float32(1.0) != 0.0),
             'rng': hashlib.blake2b(torch.get_rng_state().numpy().tobytes(), digest_size=8).hexdigest()}
 
 
